@@ -602,6 +602,175 @@ fn repeatability_sampling(run: &Run, thorough: bool) {
     run.set("schedule_sampling", json!({"what": "free-running repetitions of multi-input validations on 2/4/8/16-thread pools", "repetitions_per_pool": reps, "label": "sampling, not exhaustive"}));
 }
 
+// ---------------------------------------------------------------------------------------------
+// "... or on the process that runs it": verdicts of a process that has already validated other things
+
+/// One evaluation of the process-history corner: a single transaction applied as a batch to the corner's open state, or a block
+/// holding a single transaction applied to the corner's parent under a given header.
+#[derive(Clone)]
+enum HistMember {
+    Batch(Transaction),
+    Block(Header, Transaction),
+}
+
+/// The corner: block 1 of a Custom02 chain funds coins under the new-style and the legacy signature covenant of key 1 and under the
+/// always-true covenant; the members are evaluated against block 2.  Every family holds a valid transaction and twins of it that
+/// differ only in their signatures (same `hash_nosigs`) - what a memo keyed by the signature-free hash cannot tell apart.
+fn history_corner() -> Option<(St, Sealed, Vec<(String, HistMember)>)> {
+    let w = world_mel(NetID::Custom02, 10_000_000, 0);
+    let g = w.genesis.clone().seal(None);
+    let mut u = g.next_unsealed();
+    let (newsig, legacy) = (cov_new(1), cov_legacy(1));
+    let outs = vec![out(newsig.hash(), 1000, Denom::Mel), out(legacy.hash(), 2000, Denom::Mel), out_t(3000, Denom::Mel), out_t(10_000_000 - 6000, Denom::Mel)];
+    let fund = tx_t(TxKind::Normal, vec![melstructs::CoinID::zero_zero()], outs, 0, vec![]);
+    u.apply_tx(&fund).ok()?;
+    let parent = u.seal(None);
+    let st = parent.next_unsealed();
+    let mut members: Vec<(String, HistMember)> = vec![];
+    let flip = |sig: &bytes::Bytes| {
+        let mut v = sig.to_vec();
+        v[7] ^= 0x20;
+        bytes::Bytes::from(v)
+    };
+    let mut families: Vec<(&str, Transaction)> = vec![];
+    for (name, idx, cov) in [("new-sig", 0u8, Some(&newsig)), ("legacy-sig", 1, Some(&legacy)), ("always-true", 2, None)] {
+        let value = [1000u128, 2000, 3000][idx as usize];
+        let covs = match cov {
+            Some(c) => vec![c.to_bytes()],
+            None => vec![cov_true().to_bytes()],
+        };
+        let mut t = mktx(TxKind::Normal, vec![fund.output_coinid(idx)], vec![out_t(value, Denom::Mel)], 0, covs, vec![0xd0 + idx]);
+        t.sigs = vec![key(1).1.sign(&t.hash_nosigs().0).into()];
+        families.push((name, t));
+    }
+    for (name, valid) in &families {
+        let mut bad = valid.clone();
+        bad.sigs = vec![flip(&valid.sigs[0])];
+        let mut none = valid.clone();
+        none.sigs = vec![];
+        let mut other = valid.clone();
+        other.sigs = vec![key(2).1.sign(&valid.hash_nosigs().0).into()];
+        // forged twins first: the first in-process evaluation of a twin then happens before its valid sibling was seen
+        members.push((format!("{}:bit-flipped-signature", name), HistMember::Batch(bad.clone())));
+        members.push((format!("{}:no-signature", name), HistMember::Batch(none)));
+        members.push((format!("{}:signed-by-another-key", name), HistMember::Batch(other)));
+        members.push((format!("{}:valid", name), HistMember::Batch(valid.clone())));
+        // the forged twin inside a block that carries the header of the honest block
+        let honest = guard(|| {
+            let mut c = st.clone();
+            c.apply_tx(valid).ok()?;
+            Some(c.seal(None).header())
+        });
+        if let Ok(Some(h)) = honest {
+            members.push((format!("{}:block-with-bit-flipped-twin", name), HistMember::Block(h, bad)));
+            members.push((format!("{}:block-with-valid", name), HistMember::Block(h, valid.clone())));
+        }
+    }
+    // a faucet and its twin carrying a signature nobody asked for
+    let f = tx_t(TxKind::Faucet, vec![], vec![out_t(5, Denom::Mel)], 0, b"hist".to_vec());
+    let mut f2 = f.clone();
+    f2.sigs = vec![bytes::Bytes::from(vec![7u8; 64])];
+    members.push(("faucet".into(), HistMember::Batch(f)));
+    members.push(("faucet:with-a-stray-signature".into(), HistMember::Batch(f2)));
+    Some((st, parent, members))
+}
+
+fn hist_eval(st: &St, parent: &Sealed, m: &HistMember) -> String {
+    match m {
+        HistMember::Batch(t) => match apply_as_batch(st, std::slice::from_ref(t)) {
+            Outcome::Rejected => "rejected".into(),
+            Outcome::Panicked(c) => format!("panicked:{}", c),
+            Outcome::Accepted { none, some } => format!("accepted:{}:{}", none.hash(), some.hash()),
+        },
+        HistMember::Block(h, t) => {
+            let mut hs: HashSet<Transaction> = HashSet::new();
+            hs.insert(t.clone());
+            let b = Block { header: *h, transactions: hs, proposer_action: None };
+            match guard(|| parent.apply_block(&b).map(|s| s.header().hash())) {
+                Ok(Ok(h)) => format!("accepted:{}", h),
+                Ok(Err(_)) => "rejected".into(),
+                Err(p) => format!("panicked:{}", p.class()),
+            }
+        }
+    }
+}
+
+/// `mcheck __child c03 <member index>`: the verdict of a process that has validated nothing else.
+pub fn child_main(args: &[String]) {
+    let i: usize = args.first().and_then(|s| s.parse().ok()).unwrap_or(usize::MAX);
+    let out = match history_corner() {
+        Some((st, parent, members)) if i < members.len() => json!({"member": members[i].0, "verdict": hist_eval(&st, &parent, &members[i].1)}),
+        _ => json!({"member": "?", "verdict": "corner-not-buildable"}),
+    };
+    println!("{}", out);
+}
+
+/// Every member is first judged by a fresh process that validates nothing else; then this process evaluates every sequence of
+/// up to three (thorough four) members, each on its own copy of the same state, and every verdict must be the fresh one.
+fn process_history(run: &Run, thorough: bool) {
+    let (st, parent, members) = match history_corner() {
+        Some(x) => x,
+        None => {
+            run.outcome("process-history:corner-not-buildable");
+            return;
+        }
+    };
+    let mut fresh: Vec<String> = vec![];
+    for (i, (name, _)) in members.iter().enumerate() {
+        match crate::child::run_child(&["c03".to_string(), i.to_string()], 60.0, 4 << 30) {
+            crate::child::ChildOutcome::Done(v) if v["member"] == json!(name) => fresh.push(v["verdict"].as_str().unwrap_or("?").to_string()),
+            other => run.machinery_failure(&format!("C03 process-history child {} ({}) gave no verdict: {:?}", i, name, other)),
+        }
+        run.transition();
+        run.validated();
+    }
+    let n = members.len();
+    let depth = if thorough { 4 } else { 3 };
+    let mut seqs: u64 = 0;
+    let mut idx = vec![0usize; 1];
+    // sequences in length-lexicographic order
+    'outer: loop {
+        seqs += 1;
+        for &i in &idx {
+            run.transition();
+            let got = hist_eval(&st, &parent, &members[i].1);
+            run.validated();
+            if got != fresh[i] {
+                let names: Vec<&str> = idx.iter().map(|j| members[*j].0.as_str()).collect();
+                run.violation(
+                    "C03",
+                    format!("verdict-depends-on-process-history/{}", if fresh[i].starts_with("accepted") { "fresh-accepts" } else if got.starts_with("accepted") { "fresh-rejects-later-accepts" } else { "other" }),
+                    format!("[{}] evaluated in a process that had gone through the evaluations {:?} (each on its own copy of the same state) gives {} - a fresh process gives {}", members[i].0, names, got.split(':').next().unwrap_or(""), fresh[i].split(':').next().unwrap_or("")),
+                    json!({"sequence": names, "member": members[i].0, "fresh_process": fresh[i], "this_process": got, "tx": match &members[i].1 { HistMember::Batch(t) | HistMember::Block(_, t) => tx_json(t) }}),
+                );
+                break 'outer;
+            }
+        }
+        run.outcome("process-history:sequence-agrees-with-fresh-processes");
+        // next sequence
+        let mut k = idx.len();
+        loop {
+            if k == 0 {
+                if idx.len() == depth {
+                    break 'outer;
+                }
+                idx = vec![0; idx.len() + 1];
+                break;
+            }
+            k -= 1;
+            if idx[k] + 1 < n {
+                idx[k] += 1;
+                for j in k + 1..idx.len() {
+                    idx[j] = 0;
+                }
+                break;
+            }
+        }
+    }
+    let acc = fresh.iter().filter(|v| v.starts_with("accepted")).count();
+    run.set("process_history", json!({"members": members.iter().map(|m| m.0.clone()).collect::<Vec<_>>(), "fresh_process_verdicts": {"accepted": acc, "rejected": fresh.len() - acc}, "sequence_length": depth, "sequences": seqs, "oracle": "every in-process verdict equals the verdict of a fresh process that validated nothing else"}));
+}
+
 pub fn run(run: &Run) {
     let thorough = run.thorough();
     let max_set = if thorough { 4 } else { 3 };
@@ -649,6 +818,8 @@ pub fn run(run: &Run) {
     println!("  [phase] doscmint corner done at {:.1}s", run.elapsed());
     large_batch_family(run, thorough);
     println!("  [phase] large batches done at {:.1}s", run.elapsed());
+    process_history(run, thorough);
+    println!("  [phase] process history done at {:.1}s", run.elapsed());
     // the one lock-protected structure that validation threads share (the DOSC inflator table): every interleaving, by loom
     crate::loomrun::inflator_interleavings(run, "C03");
     repeatability_sampling(run, thorough);
